@@ -53,6 +53,11 @@ class CoreGen:
         r = self.rng.random()
         if depth >= 2 or r < 0.35:
             return self.int_atom(env)
+        if r < 0.41:
+            # literal-only, two different operators, no inner parentheses: precedence and associativity decide the value
+            self.features.add("literal-expr")
+            o1, o2 = self.pick([("+", "*"), ("*", "+"), ("-", "+"), ("-", "*"), ("*", "-"), ("-", "-")])
+            return ("lit3", self.pick([2, 3, 10]), o1, self.pick([3, 4, 5]), o2, self.pick([1, 2, 4]))
         if r < 0.78:
             self.features.add("arith")
             return ("bin", self.pick(["+", "-", "*", "+", "-"]), self.int_expr(env, depth + 1, calls), self.int_expr(env, depth + 1, calls))
@@ -105,7 +110,11 @@ class CoreGen:
                 self.features.add("param-assign")
                 return ("set", self.pick(ps), self.int_expr(env, 1))
         if r < 0.30 and ints:
-            if self.rng.random() < 0.3:
+            q = self.rng.random()
+            if q < 0.15:
+                self.features.add("increment")
+                return ("inc", self.pick(ints))
+            if q < 0.4:
                 self.features.add("compound-assign")
                 return ("aug", self.pick(ints), self.pick(["+", "-"]), self.int_expr(env, 1))
             self.features.add("assign")
@@ -131,10 +140,24 @@ class CoreGen:
             return ("newarr", v, es)
         recs = [n for n, t in env.items() if t == REC]
         if r < 0.54 and recs:
+            q = self.rng.random()
+            if q < 0.2:
+                self.features.add("field-increment")
+                return ("incfield", self.pick(recs), self.pick(FIELDS))
+            if q < 0.4:
+                self.features.add("field-compound-assign")
+                return ("augfield", self.pick(recs), self.pick(FIELDS), self.pick(["+", "-"]), self.int_expr(env, 1))
             self.features.add("field-write")
             return ("setfield", self.pick(recs), self.pick(FIELDS), self.int_expr(env, 1))
         arrs = [n for n, t in env.items() if t == ARR]
         if r < 0.60 and arrs:
+            q = self.rng.random()
+            if q < 0.25:
+                self.features.add("elem-increment")
+                return ("incelem", self.pick(arrs), self.rng.randrange(ARR_LEN))
+            if q < 0.45:
+                self.features.add("elem-compound-assign")
+                return ("augelem", self.pick(arrs), self.rng.randrange(ARR_LEN), self.pick(["+", "-"]), self.int_expr(env, 1))
             self.features.add("elem-write")
             return ("setelem", self.pick(arrs), self.rng.randrange(ARR_LEN), self.int_expr(env, 1))
         if r < 0.70 and depth < 2:
@@ -260,6 +283,8 @@ def interpret(prog, budget=100000):
             if abs(r) > 2 ** 30:
                 raise Budget()          # keep every intermediate inside all languages' int range
             return r
+        if k == "lit3":
+            return eval(f"{e[1]} {e[2]} {e[3]} {e[4]} {e[5]}")
         if k == "neg":
             return -ev(e[1], env)
         if k == "not":
@@ -299,6 +324,15 @@ def interpret(prog, budget=100000):
                     raise Budget()
             elif k == "sapp":
                 env[s[1]] = env[s[1]] + s[2]
+            elif k == "inc":
+                env[s[1]] = env[s[1]] + 1
+            elif k in ("incelem", "incfield"):
+                env[s[1]][s[2]] = env[s[1]][s[2]] + 1
+            elif k in ("augelem", "augfield"):
+                b = ev(s[4], env)
+                env[s[1]][s[2]] = env[s[1]][s[2]] + b if s[3] == "+" else env[s[1]][s[2]] - b
+                if abs(env[s[1]][s[2]]) > 2 ** 30:
+                    raise Budget()
             elif k == "newrec":
                 env[s[1]] = {FIELDS[0]: ev(s[2], env), FIELDS[1]: ev(s[3], env)}
             elif k == "newarr":
@@ -385,6 +419,8 @@ class Renderer:
             return f"({self.expr(e[2])} {e[1]} {self.expr(e[3])})"
         if k == "cmp":
             return f"({self.expr(e[2])} {e[1]} {self.expr(e[3])})"
+        if k == "lit3":
+            return f"({e[1]} {e[2]} {e[3]} {e[4]} {e[5]})"
         if k == "neg":
             return f"(-{self.expr(e[1])})"
         if k == "not":
@@ -423,6 +459,16 @@ class Renderer:
             self.emit(ind, f"{self.v(s[1])} {s[2]}= {self.expr(s[3])}{self.END}")
         elif k == "sapp":
             self.emit(ind, f"{self.v(s[1])} {self.SAPP} {self.expr(('str', s[2]))}{self.END}")
+        elif k == "inc":
+            self.incr(ind, self.v(s[1]))
+        elif k == "incelem":
+            self.incr(ind, f"{self.v(s[1])}[{s[2]}]")
+        elif k == "incfield":
+            self.incr(ind, self.field(s[1], s[2]))
+        elif k == "augelem":
+            self.emit(ind, f"{self.v(s[1])}[{s[2]}] {s[3]}= {self.expr(s[4])}{self.END}")
+        elif k == "augfield":
+            self.emit(ind, f"{self.field(s[1], s[2])} {s[3]}= {self.expr(s[4])}{self.END}")
         elif k == "newrec":
             self.newrec(ind, s[1], s[2], s[3])
         elif k == "newarr":
@@ -458,6 +504,9 @@ class Renderer:
             self.emit(ind, f"return {self.expr(s[1])}{self.END}")
         else:
             raise AssertionError(k)
+
+    def incr(self, ind, target):
+        self.emit(ind, f"{target}++{self.END}")
 
     def for_(self, ind, i, n, body):
         self.emit(ind, f"for (let {self.v(i)} = 0; {self.v(i)} < {n}; {self.v(i)}++) {{")
@@ -536,6 +585,9 @@ class TsR(JsR):
 class PyR(Renderer):
     lang, ext = "python", "py"
     AND, OR, END, NOT = "and", "or", "", "not "
+
+    def incr(self, ind, target):
+        self.emit(ind, f"{target} += 1")
 
     def let(self, ind, name, ty, e):
         self.emit(ind, f"{name} = {self.expr(e)}")
